@@ -217,6 +217,13 @@ Proof.
   - intros tl s2. reflexivity.
 Qed.
 
+(* eta-reduces the two parsers of the goal (unification leaves [fun s => p s] behind) *)
+Ltac sh_eta :=
+  repeat match goal with
+         | |- Sh (fun x => ?f x) ?q => change (Sh f q)
+         | |- Sh ?p (fun x => ?g x) => change (Sh p g)
+         end.
+
 Ltac sh_auto :=
   lazymatch goal with
   | |- Sh (p_map _ _) (p_map _ _) => apply Sh_map; sh_auto
@@ -238,7 +245,7 @@ Ltac sh_auto :=
   | |- Sh (p_ignore0 _ _) (p_ignore0 _ _) => apply Sh_ignore0; la_sh
   | |- Sh (p_ignore1 _ _) (p_ignore1 _ _) => apply Sh_ignore1; la_sh
   | |- Sh (fun _ => PFuel) (fun _ => PFuel) => apply Sh_fuel
-  | _ => first [ eassumption | apply Sh_restore; sh_auto ]   (* also the inlined form fun s => match p s with PErr _ => PErr s | r => r end *)
+  | _ => first [ eassumption | apply Sh_restore; sh_eta; sh_auto ]   (* also the inlined form fun s => match p s with PErr _ => PErr s | r => r end *)
   end.
 
 (* ---- non-terminals ---- *)
@@ -366,8 +373,15 @@ End Shift.
 
 (* the same tactics for users outside the section (Ltac definitions do not survive [End Section]) *)
 Ltac la_sh :=
-  first [ exact la_param_sh | exact la_arg_sh | exact la_var_dec_sh | exact la_stmt_sh | exact la_global_sh
+  first [ apply la_param_sh | apply la_arg_sh | apply la_var_dec_sh | apply la_stmt_sh | apply la_global_sh
         | apply la_tag_sh | apply la_ident_then_sh ].
+
+(* eta-reduces the two parsers of the goal (unification leaves [fun s => p s] behind) *)
+Ltac sh_eta :=
+  repeat match goal with
+         | |- Sh ?pre (fun x => ?f x) ?q => change (Sh pre f q)
+         | |- Sh ?pre ?p (fun x => ?g x) => change (Sh pre p g)
+         end.
 
 Ltac sh_auto :=
   lazymatch goal with
@@ -390,6 +404,6 @@ Ltac sh_auto :=
   | |- Sh _ (p_ignore0 _ _) (p_ignore0 _ _) => apply Sh_ignore0; la_sh
   | |- Sh _ (p_ignore1 _ _) (p_ignore1 _ _) => apply Sh_ignore1; la_sh
   | |- Sh _ (fun _ => PFuel) (fun _ => PFuel) => apply Sh_fuel
-  | _ => first [ eassumption | apply Sh_restore; sh_auto ]   (* also the inlined form fun s => match p s with PErr _ => PErr s | r => r end *)
+  | _ => first [ eassumption | apply Sh_restore; sh_eta; sh_auto ]   (* also the inlined form fun s => match p s with PErr _ => PErr s | r => r end *)
   end.
 
